@@ -335,8 +335,8 @@ int main(int argc, char** argv) {
     ctx.parse(argc, argv, "C06");
     const bool T = ctx.thorough();
     auto C = make_configs(T);
-    const int K1 = T ? 12 : 10;
-    const int K2 = T ? 64 : 32;
+    const int K1 = T ? 14 : 11;
+    const int K2 = T ? 96 : 40;
     for (size_t ci = 0; ci < C.size(); ++ci) {
         const Config& c = C[ci];
         const uint64_t chash = fnv(c.name);
@@ -442,7 +442,7 @@ int main(int argc, char** argv) {
         }
         // ---------------- mode iso: instance isolation
         for (int ninst = 2; ninst <= 3; ++ninst) {
-            if (ninst == 3 && !T && (ci % 7 != 0)) continue;
+            if (ninst == 3 && !T && (ci % 2 != 0)) continue;
             if (!ctx.take("instance.iso", P().kv("config", c.name).kv("instances", ninst))) continue;
             const int NF = 3, G = 2;   // 3 frames of 2 granules per instance
             std::vector<std::vector<double>> streams, solo;
